@@ -4,7 +4,7 @@ import PjVerif.Spec.Calendar
 open Lean
 namespace Pj.Drive
 
-def parseOp (s : String) : OpKind :=
+def parseOpKind (s : String) : OpKind :=
   match s with
   | "add" => .add | "sub" => .sub | "mul" => .mul | "div" => .div | _ => .or
 
@@ -16,7 +16,7 @@ partial def parseCExpr (j : Json) : CExpr :=
   | "D" => .direct ((jArr (jIdx j 1)).map (fun p => (jTime (jIdx p 0), jRat (jIdx p 1))))
   | "F" => .fixed (jRat (jIdx j 1)) (jOptTime (jIdx j 2)) (jOptTime (jIdx j 3))
   | "N" => .num (jRat (jIdx j 1))
-  | _ => .op (parseOp (jStr (jIdx j 1))) (parseCExpr (jIdx j 2)) (parseCExpr (jIdx j 3))
+  | _ => .op (parseOpKind (jStr (jIdx j 1))) (parseCExpr (jIdx j 2)) (parseCExpr (jIdx j 3))
 
 /-- total capacity function of the *spec* (None → 0; undefined → 0, flagged separately) -/
 def denCap (e : CExpr) (t : Time) : Rat :=
